@@ -621,7 +621,12 @@ def register(reg):
         def checks(self, c):
             conn = c.new(c.self, "HC._connection")
             evs = c.events("ci.aclose")
-            return [("closes_the_protocol_connection_if_any", ("C06",), z3.If(conn.t == 0, z3.BoolVal(len(evs) == 0), z3.BoolVal(len(evs) == 1 and True)))]
+            return [("closes_the_protocol_connection_if_any", ("C06",), z3.If(conn.t == 0, z3.BoolVal(len(evs) == 0), z3.BoolVal(len(evs) == 1 and True))),
+                    # from the property (C06 "owned at all times by a connection that is in the pool or being closed"): the pool
+                    # drops every connection it closes.  Closing one that is still being established must make the establishing
+                    # request give it up (mark it failed), or the stream it opens afterwards belongs to a connection nobody knows
+                    # (design_probes/w4_preexisting/C06_preexisting_1.py: pool.aclose() during connect_tcp)
+                    ("closing_an_unestablished_connection_makes_its_establishment_give_up", ("C06",), z3.Or(conn.t != 0, F(c, c.self, "HC._connect_failed")))]
 
         def callsite(self, c, ev):
             if ev.name == "ci.aclose":
